@@ -127,6 +127,41 @@ def gen(rng, tier):
             saddr = bytes([0] * 10 + [255, rng.choice([255, 254])]) + src[12:]
         cs.append(Case(f"findconf {want} {1 if serverp else 0} {sfam} {hexs(saddr)} {srcport} " + " ".join(toks),
                        kind="findconf", blocks=nblocks, multi=multi, nontriv=wantcount >= 2))
+    # UDP replies: the REAL radudpget on the proxy's UDP client socket (loopback), datagrams sent from sockets bound to the servers'
+    # addresses and ports, to the same address with another port, to a neighbouring address — in sequences, because what is taken
+    # from one source must not depend on what was taken before (op udprd; 127.0.0.0/8 is all a loopback sender can be bound to)
+    for _ in range(400 if tier == "quick" else 8000):
+        toks, srcs = [], []
+        for _b in range(rng.randrange(1, 4)):
+            ty = 0 if rng.random() < 0.85 else rng.randrange(1, 4)
+            toks.append(f"C{ty}")
+            for _e in range(rng.randrange(1, 3)):
+                a = bytes([127, 0, rng.choice([2, 2, 3]), rng.randrange(1, 4)])
+                if rng.random() < 0.8:
+                    port = rng.choice([1812, 1813, 1812, rng.randrange(2000, 10000)])
+                    toks.append(f"E4:{hexs(a)}:255:{port}:{text_of(4, a, 255, port)}")
+                    srcs.append((a, port))
+                else:
+                    prefix = rng.choice([24, 16, 30, 31, 32, 8])
+                    toks.append(f"E4:{hexs(a)}:{prefix}:1812:{text_of(4, a, prefix, None)}")
+                    srcs.append((a, 1812))
+        dg = []
+        last = None
+        for k in range(rng.randrange(2, 9)):
+            r = rng.random()
+            if last is not None and r < 0.35:       # the source just seen, from another port / the port just seen, from a neighbour
+                a, port = last
+                if rng.random() < 0.7:
+                    port = rng.choice([1812, 1813, port + 1, rng.randrange(2000, 10000)])
+                else:
+                    a = flip(a, rng.choice([31, 30, 23]))
+            elif r < 0.8:
+                a, port = rng.choice(srcs)
+            else:
+                a, port = bytes([127, 0, rng.choice([2, 3, 4]), rng.randrange(1, 5)]), rng.choice([1812, 1813, rng.randrange(2000, 10000)])
+            last = (a, port)
+            dg.append(f"D{hexs(a)}:{port}:{k}")
+        cs.append(Case("udprd 0 1 4 00000000 0 " + " ".join(toks + dg), kind="udprd", nontriv=len(srcs) >= 2))
     # whole TLS connections through the real tlsservernew: handshake, certificate chain, and the walk over the client blocks that list
     # the peer's address until one accepts its certificate
     import tlsgen
